@@ -172,5 +172,17 @@ theorem doc_correct (rows : List Row) (hw : WF rows) :
       docAt (build true rows 1 ⟨[], []⟩) e.1 = e.2.1 ∧ commentAt (build true rows 1 ⟨[], []⟩) e.1 = e.2.2 :=
   doc_correct_aux rows hw 1 ⟨[], []⟩ none (by omega) (by intro k _; simp) (by intro _; simp)
 
+/-- **C12, composed**: what `Doc` / `Comment` return for every declaration of every layout — the tag
+    extraction of (the `go:`-filtered lines of) the group that ends directly above it, and the
+    filtered lines of its own trailing comment; never the previous line's trailing comment -/
+theorem docOf_correct (rows : List Row) (hw : WF rows) :
+    ∀ e ∈ truth rows 1 none,
+      docOf (build true rows 1 ⟨[], []⟩) e.1 = Tags.extract Gengo.Gen.defaultMarkers (commentLines e.2.1) ∧
+      commentOf (build true rows 1 ⟨[], []⟩) e.1 = commentLines e.2.2 := by
+  intro e he
+  obtain ⟨h1, h2⟩ := doc_correct rows hw e he
+  simp [docOf, commentOf, h1, h2]
+
 #print axioms doc_correct
+#print axioms docOf_correct
 end Gengo.Layout
